@@ -293,7 +293,7 @@ class Ctx:
                     pr.log += traceback.format_exc()
             targets = list(props) + gen_mods
             pr.modules = targets
-            cmd = ["lake", "build", "molli_driver"] + targets
+            cmd = ["lake", "build", "molli_driver", "Molli.Audit"] + targets
             pr.checker_cmd = f"cd {LEAN} && {' '.join(cmd)} && lake env lean <audit of {' '.join(targets)}>"
             try:
                 r = subprocess.run(cmd, cwd=LEAN, capture_output=True, text=True, timeout=3000)
